@@ -7,6 +7,7 @@ T4  binding patterns (let, for, for-join) are shown irrefutable before the state
 T5  recursion guard: tested before, set around, cleared after the body is checked
 T6  scoping: pushes and pops balance on accepting paths; every match clause is checked in its own scope
 T10 as_concrete_type looks every name a type mentions up (struct / enum names, consts used as array sizes) on every accepting path
+T13 struct literals / patterns: a duplicated field is reported and the search for missing fields lies on every accepting path
 T12 a block takes the type of its last statement only (assigned on the `index == len - 1` edge, or afresh for every statement)
 T11 max / min / + / - const expressions are only accepted for consts whose declared type is examined (numeric)
 T9  const expressions are checked against the consts defined before them (a local map filled in source order), never against the
@@ -912,5 +913,60 @@ def rule_t12(ctx):
     return res
 
 
+def rule_t13(ctx):
+    """Struct literals / patterns: every field of the definition exactly once."""
+    res = RuleResult("T13", "struct literals and struct patterns reject duplicated fields and always look for missing ones")
+    sites = [("struct literal", expr_tc(ctx), {INNER: "StructLiteral"}, True),
+             ("struct pattern", pat_tc(ctx), {(SELF1, ("0",)): "Struct"}, True)]
+    for label, f, assume, must_missing in sites:
+        body = ctx.body(f["id"])
+        succ = body.pruned_succ(assume)
+        region = body.reachable([0], succ=succ)
+        if len(region) == len(body.reachable([0])) or len(region) < 4:
+            raise AnchorMissing("T13: cannot isolate the %s arm" % label)
+
+        def builds(variant):
+            out = set()
+            for b in region:
+                for st in body.blocks[b]["stmts"]:
+                    if st["k"] == "assign" and st["rv"]["k"] == "aggregate" and st["rv"].get("adt") == "check::TypeErrorEnum" and st["rv"].get("variant") == variant:
+                        out.add(b)
+            return out
+        dup = builds("DuplicateStructField")
+        mis = builds("MissingStructField")
+        if dup:
+            res.ok({"site": label, "clause": "duplicates", "verdict": "a duplicated field is reported"})
+        else:
+            res.bad(Finding("T13", f["id"], "%s: a field given twice is not rejected" % label,
+                            "no error is constructed for a duplicated field: a literal / pattern with a wrong number of fields is accepted", f["sp"]))
+        if not mis:
+            res.bad(Finding("T13", f["id"], "%s: missing fields are never reported" % label, "the arm constructs no MissingStructField error", f["sp"]))
+            continue
+        # the search for missing fields (the loop around the MissingStructField site) lies on every accepting path
+        loops = [lp for lp in body.loops() if lp["body"] & mis]
+        if not loops:
+            raise AnchorMissing("T13: the %s arm does not look for missing fields in a loop" % label)
+        lp = max(loops, key=lambda l: len(l["body"]))
+        exits = [b for b in ok_exits(body) if b in region]
+
+        def nsucc(x, region=region, succ=succ):
+            out = [y for y in succ(x) if not body.blocks[y]["cleanup"]]
+            t = body.term(x)
+            if t["k"] == "switch" and t["discr"]["k"] in ("copy", "move") and body.locals[t["discr"]["place"]["l"]]["ty"] == "bool":
+                v = mir.const_bool_under(body, t["discr"], region)
+                if v is not None:
+                    zero_t = [tg for val, tg in t["targets"] if val == 0]
+                    out = [y for y in out if (y in zero_t) == (not v)]
+            return out
+        w = body.path(0, exits, blocked={lp["header"]}, succ=nsucc)
+        if w:
+            res.bad(Finding("T13", f["id"], "%s: the search for missing fields can be skipped" % label,
+                            "a path accepts the %s without iterating over the fields of the definition (e.g. behind a comparison of the two lengths, which a duplicated field defeats): "
+                            "a missing field goes unnoticed and the compiler panics on it" % label, body.term(sorted(mis)[0])["sp"]))
+        else:
+            res.ok({"site": label, "clause": "missing fields", "verdict": "looked for on every accepting path"})
+    return res
+
+
 def run(ctx):
-    return ctx.run_rules([rule_t1, rule_t2, rule_t3, rule_t4, rule_t5, rule_t6, rule_t7, rule_t8, rule_t9, rule_t10, rule_t11, rule_t12])
+    return ctx.run_rules([rule_t1, rule_t2, rule_t3, rule_t4, rule_t5, rule_t6, rule_t7, rule_t8, rule_t9, rule_t10, rule_t11, rule_t12, rule_t13])
